@@ -42,6 +42,7 @@ def write_evidence(path, prop, tier, seed, results, lemma_results, bounded, obli
                           "discharged": sum(1 for d in r["obligations"].values() if d["status"] == "unsat"),
                           "uncovered_lines_rel": r.get("uncovered_lines", []), "raised_classes": r.get("raised", {}),
                           "canaries_run": r.get("canaries", 0), "canaries_proved(must be 0)": r.get("canary_proved", 0),
+                          "feasible_exits(vacuous if 0)": r.get("feasible_exits", 0), "exits_infeasible_under_quantified_facts": r.get("infeasible_full", 0),
                           "solver_s": round(r["secs"], 2),
                           "cross_check": {k: v for k, v in (r.get("cross") or {}).items() if k != "disagree"} or None})
         for c in r.get("callee_contracts_used", []):
